@@ -1609,3 +1609,51 @@ func GenerateDBX(o genOpts, firstID int, limits []int) []Input {
 	}
 	return out
 }
+
+// GenerateInterleaved: for every decoder family, B = the valid seed and a handful of hostile classes taken from the
+// main list (first single mutations, a truncation in the middle, short garbage), each sent while another client's
+// valid push of the same family waits for the retry of its refused first INSERT.
+func GenerateInterleaved(o genOpts, main []Input, firstID int) []Input {
+	var out []Input
+	cnt := map[string]int{}
+	seenRoute := map[string]string{}
+	per := 6
+	if o.Thorough {
+		per = 40
+	}
+	for i := range main {
+		in := main[i]
+		if _, ok := familyOK[in.Family]; !ok || in.Family == "health" || len(in.Headers) > 1 {
+			continue
+		}
+		if r, ok := seenRoute[in.Family]; ok && r != in.Route {
+			continue // one route per family
+		}
+		seenRoute[in.Family] = in.Route
+		k := in.Family + "/" + in.Gen
+		switch in.Gen {
+		case "seed", "mut1":
+		case "trunc":
+			if !strings.Contains(in.Desc, "seed truncated") || cnt[k] > 0 && cnt[k]%37 != 0 {
+				cnt[k]++
+				continue
+			}
+		case "bytes3":
+			if len(in.Body) != 1 {
+				continue
+			}
+		default:
+			continue
+		}
+		if cnt[k+"#"] >= per {
+			continue
+		}
+		cnt[k+"#"]++
+		cnt[k]++
+		in.ID = firstID + len(out)
+		in.Desc = "while another client waits for its retry: " + in.Desc
+		in.Gen = "ilv"
+		out = append(out, in)
+	}
+	return out
+}
